@@ -12,6 +12,7 @@ import (
 	"time"
 
 	"github.com/fiorix/go-diameter/v4/diam"
+	"github.com/fiorix/go-diameter/v4/diam/datatype"
 
 	"verifharness/ev"
 	"verifharness/gen"
@@ -101,6 +102,32 @@ func variant(nodes []*refcodec.Node, j byte) []*refcodec.Node {
 		out[i] = &c
 	}
 	return out
+}
+
+// appendToValues appends to every byte-slice value of a decoded tree (without keeping the
+// result): with spare capacity shared between values the append would write into another value.
+func appendToValues(avps []*diam.AVP) {
+	junk := bytes.Repeat([]byte{0xEE}, 48)
+	for _, a := range avps {
+		switch v := a.Data.(type) {
+		case datatype.Unknown:
+			_ = append(v, junk...)
+		case datatype.OctetString:
+			_ = append([]byte(v), junk...)
+		case datatype.Address:
+			_ = append(v, junk...)
+		case datatype.IPv4:
+			_ = append(v, junk...)
+		case datatype.IPv6:
+			_ = append(v, junk...)
+		case *diam.GroupedAVP:
+			appendToValues(v.AVP)
+			// ... or add a member to a group it decoded
+			if cap(v.AVP) > len(v.AVP) {
+				_ = append(v.AVP, diam.NewAVP(9009, 0x40, 0, datatype.Unsigned32(0xEEEEEEEE)))
+			}
+		}
+	}
 }
 
 type snapshot struct {
@@ -223,6 +250,12 @@ func TestC06(t *testing.T) {
 				mj, err := diam.ReadMessage(src, ctx.Parser)
 				if err != nil {
 					return err
+				}
+				// an application may extend values it decoded (append to the bytes of an opaque
+				// or address value): that is its own copy, not a window onto other messages
+				appendToValues(mj.AVP)
+				if cap(mj.AVP) > len(mj.AVP) {
+					_ = append(mj.AVP, diam.NewAVP(9009, 0x40, 0, datatype.Unsigned32(0xEEEEEEEE)))
 				}
 				// writes reuse pooled buffers as well: send the message just read and an answer to it
 				if _, err := mj.WriteTo(io.Discard); err != nil {
